@@ -3,6 +3,8 @@ package checks
 import (
 	"crypto/tls"
 	"fmt"
+	"io"
+	"time"
 
 	"verif/sim/resp"
 	"verif/sim/sim"
@@ -21,6 +23,13 @@ type tlsClient struct {
 	Fault     string
 	DialAfter func() bool
 	KeepOpen  bool // do not close after the script (idle client)
+	// Pipelined: all items are written in one go and the write side is ended at once (EndMode) without waiting for
+	// replies ("fire and forget": the close_notify alert travels right behind the last data record); the replies are
+	// then read until the server ends the stream.
+	Pipelined bool
+	EndMode   int // with Pipelined: 0 CloseWrite (close_notify, keep reading), 1 Close
+	// PauseBefore[i] > 0: stay silent for that long (simulated time) before sending item i
+	PauseBefore map[int]time.Duration
 
 	Dialed       bool
 	Refused      bool
@@ -72,7 +81,55 @@ func (c *tlsClient) dial() {
 		s.Logf(c.Name, "handshake done")
 		buf := make([]byte, 4096)
 		var acc []byte
-		for _, it := range c.Items {
+		if c.Pipelined {
+			var all []byte
+			for _, it := range c.Items {
+				all = append(all, it...)
+			}
+			if _, err := tc.Write(all); err != nil {
+				c.IOErr = err
+				end.Close()
+				return
+			}
+			if c.EndMode == 1 {
+				tc.Close()
+				end.Close()
+				return
+			}
+			tc.CloseWrite()
+			for {
+				n, err := tc.Read(buf)
+				acc = append(acc, buf[:n]...)
+				for {
+					v, m, derr := resp.Decode(acc, 0)
+					if derr != nil {
+						if derr != resp.ErrIncomplete {
+							c.IOErr = derr
+						}
+						break
+					}
+					c.Vals = append(c.Vals, v)
+					acc = acc[m:]
+				}
+				if err != nil {
+					if err != io.EOF {
+						c.IOErr = err
+					}
+					break
+				}
+			}
+			s.Logf(c.Name, "stream ended after %d replies", len(c.Vals))
+			tc.Close()
+			end.Close()
+			return
+		}
+		for i, it := range c.Items {
+			if d := c.PauseBefore[i]; d > 0 {
+				s.Logf(c.Name, "pauses %s before item %d", d, i)
+				if s.ParkUntil(c.Name, "pause", time.Now().Add(d)) {
+					return
+				}
+			}
 			if _, err := tc.Write(it); err != nil {
 				c.IOErr = err
 				break
